@@ -583,6 +583,11 @@ fn next_fcnt_down(last: Option<u32>, wire: u16) -> Option<u32> {
     }
 }
 
+#[cfg(lora_rs_verif)]
+pub(crate) fn verif_next_fcnt_down(last: Option<u32>, wire: u16) -> Option<u32> {
+    next_fcnt_down(last, wire)
+}
+
 #[cfg(test)]
 mod tests {
     use super::next_fcnt_down;
